@@ -51,7 +51,10 @@ def hMimc7 (l : List Int) : Option Nat :=
 def hashBy (name : String) : Option (List Int → Option Nat) :=
   if name = "poseidon" then some hPoseidon else if name = "mimc7" then some hMimc7 else none
 
-def sqrtQ (x : Nat) : Option Nat := sqrtMod x Gen.constants_q
+/-- stand-in for `big.Int.ModSqrt(x, q)`: the Tonelli–Shanks model of ff.Sqrt, proved correct in
+    I3.Props.C18 (`ff_sqrt_some`, `ff_sqrt_none_iff`).  Which root is returned is irrelevant for the
+    decompression model (the sign bit selects it). -/
+def sqrtQ (x : Nat) : Option Nat := Model.FF.sqrt ffCfg (x % Gen.constants_q)
 
 
 def blake (b : Bytes) : Bytes := Blake.blake512 b
